@@ -8,6 +8,7 @@ lemmas, assumed contracts – all reported as such) plus directives:
   //@fn file=<p> [in="<hdr>"] name=<n> [rules=R1,R2,..] [ret=<id>] [attrs="#[..]"] [as=<newname>]
       //@contract / //@pre / //@post / //@loop k / //@before_loop k /
       //@body_start k / //@body_end k / //@before "<code>" / //@after "<code>" / //@nloops k
+      //@after_loop k   (ghost text right after the closing brace of loop k)
   //@end
   //@struct file=<p> name=<n> [keep=a,b] [derive="A,B"] [rules=..]
   //@enum   file=<p> name=<n> [derive="A,B"]
@@ -2249,6 +2250,37 @@ def rule_tupassignx(toks, fired):
 
 RULES["tupassignx"] = rule_tupassignx
 RULE_ORDER[RULE_ORDER.index("R20"):RULE_ORDER.index("R20")] = ["tupassignx"]
+
+
+def rule_unreach(toks, fired):
+    """unreach (unit nonsym_cones):  unreachable!();  ->  return unreachable_panic();
+    `unreachable!()` is an unconditional panic (of type `!`).  As in R13 / R26 the documented panic is modelled as divergence:
+    `unreachable_panic<T>() -> T` is declared by the unit with `ensures false` (like `diverge` of prelude/std_assumed.rs, but usable in a
+    function that returns a value) - control does not come back.  A function whose whole body is `unreachable!()` can then be given the
+    truthful contract `ensures false` ("never returns"), which a changed body (one that does return) fails; a contract `requires false`
+    would make the function vacuous for the `assert(false)` guard of check.py.  Only the argument-less statement form is rewritten;
+    anything else is an ExtractError."""
+    i = 0
+    while i < len(toks):
+        t = toks[i]
+        if t.kind == "ident" and t.text == "unreachable" and not t.syn and toks[next_code(toks, i + 1)].text == "!":
+            b = next_code(toks, i + 1)
+            p = next_code(toks, b + 1)
+            pe = match_close(toks, p) if toks[p].text == "(" else -1
+            end = next_code(toks, pe + 1) if pe >= 0 else len(toks)
+            if pe < 0 or next_code(toks, p + 1) != pe or end >= len(toks) or toks[end].text != ";":
+                raise ExtractError("unreach: `unreachable!` is not the statement `unreachable!();`")
+            new = synth("return unreachable_panic();")
+            toks = toks[:i] + new + toks[end + 1:]
+            fired["unreach"] = fired.get("unreach", 0) + 1
+            i += len(new)
+            continue
+        i += 1
+    return toks
+
+
+RULES["unreach"] = rule_unreach
+RULE_ORDER[RULE_ORDER.index("R20"):RULE_ORDER.index("R20")] = ["unreach"]
 
 
 # ---- rules added for unit info_print (additive): output as a ghost sequence of items ----
